@@ -82,6 +82,7 @@ type c16env struct {
 	prReal  base.ProposalSignFact
 	prOther base.ProposalSignFact
 	vpcache map[string]base.Voteproof
+	pragain map[string]base.ProposalSignFact
 	donor   string // root of the donor block (another valid block of the same height)
 	donorB  *c16block
 }
@@ -106,6 +107,8 @@ type c16block struct {
 	ivp        base.INITVoteproof
 	avp        base.ACCEPTVoteproof
 	served     map[base.BlockItemType]bool
+	recoded    map[base.BlockItemType]bool // the source serves an equivalent but byte-different file
+	alt        bool                        // write the equivalent, byte-different form
 	rebuildSts bool
 	rebuildOps bool
 }
@@ -118,8 +121,15 @@ type c16tamper struct {
 
 func c16alphabet() []c16tamper {
 	served := func(t base.BlockItemType) c16tamper {
-		return c16tamper{name: "served-" + strings.ReplaceAll(t.String(), "_", "-") + "-of-other-block", apply: func(_ *c16env, _ string, b *c16block) {
+		return c16tamper{name: "served-" + strings.ReplaceAll(t.String(), "_", "-") + "-of-other-block", excl: "served-" + t.String(), apply: func(_ *c16env, _ string, b *c16block) {
 			b.served[t] = true
+		}}
+	}
+	// the source serves a semantically identical item whose bytes differ from the ones the map was signed for
+	// (proposal / voteproofs signed again, operations / states in another order): only the checksum can tell
+	recoded := func(t base.BlockItemType, how string) c16tamper {
+		return c16tamper{name: "served-" + strings.ReplaceAll(t.String(), "_", "-") + "-" + how, excl: "served-" + t.String(), apply: func(_ *c16env, _ string, b *c16block) {
+			b.recoded[t] = true
 		}}
 	}
 
@@ -148,6 +158,10 @@ func c16alphabet() []c16tamper {
 		served(base.BlockItemStates),
 		served(base.BlockItemStatesTree),
 		served(base.BlockItemVoteproofs),
+		recoded(base.BlockItemProposal, "signed-again"),
+		recoded(base.BlockItemOperations, "reordered"),
+		recoded(base.BlockItemStates, "reordered"),
+		recoded(base.BlockItemVoteproofs, "signed-again"),
 	}
 }
 
@@ -205,8 +219,21 @@ func (e *c16env) proposal(ops []base.Operation, prev util.Hash) base.ProposalSig
 	return pr
 }
 
+// the same proposal fact, signed again (other signed_at / signature bytes)
+func (e *c16env) signedAgain(pr base.ProposalSignFact) base.ProposalSignFact {
+	key := "pr-again|" + pr.Fact().Hash().String()
+	if i, found := e.pragain[key]; found {
+		return i
+	}
+	n := isaac.NewProposalSignFact(pr.Fact().(isaac.ProposalFact))
+	e.must(n.Sign(e.Local.Privatekey(), e.LocalParams.NetworkID()))
+	e.pragain[key] = n
+
+	return n
+}
+
 func c16newenv(t *testing.T) *c16env {
-	e := &c16env{t: t, vpcache: map[string]base.Voteproof{}, sts: map[string][]base.State{}, stR: map[string]base.State{}}
+	e := &c16env{t: t, vpcache: map[string]base.Voteproof{}, pragain: map[string]base.ProposalSignFact{}, sts: map[string][]base.State{}, stR: map[string]base.State{}}
 	e.SetT(t)
 	e.BaseTestLocalBlockFS.SetupSuite()
 	e.BaseTestBallots.SetupTest() // Local, LocalParams (threshold 100, single signer)
@@ -239,7 +266,7 @@ func c16newenv(t *testing.T) *c16env {
 	// donor: a fully valid other block of the same height
 	d := &c16block{
 		ops: e.opF, opstree: e.opsTree(e.opF), sts: e.stF, ststree: e.statesTree(e.stF), pr: e.prOther,
-		vpHeight: c16H, avpBlock: "manifest", served: map[base.BlockItemType]bool{},
+		vpHeight: c16H, avpBlock: "manifest", served: map[base.BlockItemType]bool{}, recoded: map[base.BlockItemType]bool{},
 	}
 	d.mOpsRoot, d.mStsRoot, d.mPr = d.opstree.Root(), d.ststree.Root(), d.pr.Fact().Hash()
 	e.donor = filepath.Join(e.work, "donor")
@@ -254,7 +281,7 @@ func (e *c16env) voteproofs(b *c16block) {
 	ipoint := base.NewPoint(b.vpHeight, 0)
 	apoint := base.NewPoint(b.vpHeight, b.avpRound)
 
-	ikey := fmt.Sprintf("init|%v|%v", ipoint, b.mPr)
+	ikey := fmt.Sprintf("init|%v|%v|%v", ipoint, b.mPr, b.alt)
 	if _, found := e.vpcache[ikey]; !found {
 		ifact := e.NewINITBallotFact(ipoint, e.prev, b.mPr)
 		ivp, err := e.NewINITVoteproof(ifact, e.Local, []base.LocalNode{e.Local})
@@ -274,7 +301,7 @@ func (e *c16env) voteproofs(b *c16block) {
 		newblock = c16hash("another new block")
 	}
 
-	akey := fmt.Sprintf("accept|%v|%v|%v|%v", apoint, b.mPr, newblock, b.avpDraw)
+	akey := fmt.Sprintf("accept|%v|%v|%v|%v|%v", apoint, b.mPr, newblock, b.avpDraw, b.alt)
 	if _, found := e.vpcache[akey]; !found {
 		afact := e.NewACCEPTBallotFact(apoint, b.mPr, newblock)
 
@@ -318,13 +345,26 @@ func (e *c16env) write(root string, b *c16block, id string) base.BlockMap {
 	fs, err := NewLocalFSWriter(root, c16H, e.Enc, e.Enc, e.Local, e.LocalParams.NetworkID())
 	e.must(err)
 
-	for i := range b.ops {
-		e.must(fs.SetOperation(ctx, uint64(len(b.ops)), uint64(i), b.ops[i]))
+	ops, sts, pr := b.ops, b.sts, b.pr
+	if b.alt {
+		ops = make([]base.Operation, len(b.ops))
+		for i := range b.ops {
+			ops[len(b.ops)-1-i] = b.ops[i]
+		}
+		sts = make([]base.State, len(b.sts))
+		for i := range b.sts {
+			sts[len(b.sts)-1-i] = b.sts[i]
+		}
+		pr = e.signedAgain(b.pr)
+	}
+
+	for i := range ops {
+		e.must(fs.SetOperation(ctx, uint64(len(ops)), uint64(i), ops[i]))
 	}
 	e.must(fs.SetOperationsTree(ctx, b.opstree))
-	e.must(fs.SetProposal(ctx, b.pr))
-	for i := range b.sts {
-		e.must(fs.SetState(ctx, uint64(len(b.sts)), uint64(i), b.sts[i]))
+	e.must(fs.SetProposal(ctx, pr))
+	for i := range sts {
+		e.must(fs.SetState(ctx, uint64(len(sts)), uint64(i), sts[i]))
 	}
 	e.must(fs.SetStatesTree(ctx, b.ststree))
 
@@ -520,7 +560,7 @@ func (e *c16env) run(basename, order string, tampers []c16tamper) c16result {
 
 	b := &c16block{
 		ops: append([]base.Operation{}, e.ops...), sts: append([]base.State{}, e.sts[basename]...), pr: e.prReal,
-		vpHeight: c16H, avpBlock: "manifest", served: map[base.BlockItemType]bool{},
+		vpHeight: c16H, avpBlock: "manifest", served: map[base.BlockItemType]bool{}, recoded: map[base.BlockItemType]bool{},
 	}
 	b.opstree = e.opsTree(b.ops)
 	b.ststree = e.statesTree(b.sts)
@@ -554,6 +594,27 @@ func (e *c16env) run(basename, order string, tampers []c16tamper) c16result {
 		case base.BlockItemVoteproofs:
 			b.ivp, b.avp = e.donorB.ivp, e.donorB.avp
 		}
+	}
+
+	if len(b.recoded) > 0 {
+		altroot := filepath.Join(e.work, fmt.Sprintf("alt-%d", e.seq))
+		e.must(os.MkdirAll(altroot, 0o700))
+		ab := *b
+		ab.alt = true
+		am := e.write(altroot, &ab, id+"(alt)")
+		if !am.Manifest().Hash().Equal(b.manifest.Hash()) {
+			e.t.Fatalf("c16 fixture %s: the equivalent block has another manifest", id)
+		}
+		for _, t := range c16ItemOrder {
+			if b.recoded[t] {
+				from, to := c16itemPath(e, altroot, t), c16itemPath(e, src, t)
+				if c16fileChecksum(e, from) == c16fileChecksum(e, to) {
+					continue // a list of one element has no other order: the variant degenerates to its other tampers
+				}
+				c16copy(e, from, to)
+			}
+		}
+		_ = os.RemoveAll(altroot)
 	}
 
 	srcReaders := e.NewReaders(src)
